@@ -108,7 +108,7 @@ Qed.
 Definition op_scalar (o : lop) : bool :=
   match o with
   | LApply _ a => arg_scalar a
-  | LEmitV _ _ args | LEmitRV _ _ _ args | LLevel _ _ _ args => hist_scalar args
+  | LEmitV _ _ args | LEmitRV _ _ _ args | LLevel _ _ _ args | LBurst _ _ _ _ args => hist_scalar args
   | LLog _ _ _ _ _ _ _ _ _ => false        (* Log() always carries a format string *)
   | _ => true
   end.
@@ -125,6 +125,9 @@ Proof.
   apply Forall_app. split; [assumption|]. apply Forall_forall. intros pe Hin. apply in_map_iff in Hin.
   destruct Hin as [p [E _]]. subst pe. exact H.
 Qed.
+
+Lemma emit_to_n_scalar : forall n x pids act h l, scalar_inv x -> hist_scalar h = true -> scalar_inv (emit_to_n x pids act h l n).
+Proof. induction n as [|n IH]; intros; cbn [emit_to_n]; [assumption|]. apply IH; [apply emit_to_scalar|]; assumption. Qed.
 
 Lemma variadic_scalar : forall c x l args obs known x' r k', scalar_inv x -> hist_scalar args = true ->
   x_variadic c x l args obs known = SOk x' r k' -> scalar_inv x'.
@@ -176,6 +179,8 @@ Proof.
   - apply finish_op_inv in H. subst. constructor; assumption.
   - destruct (nth_error (c_loggers c) l) as [[[[? ?] ?] ?]|]; [|discriminate].
     destruct (logger_enabled c l); apply finish_op_inv in H; subst; assumption.
+  - destruct (eat_active obs) as [[act rest]|]; [|discriminate]. apply finish_op_inv in H. subst.
+    destruct (logger_enabled c l); [apply emit_to_n_scalar|]; assumption.
 Qed.
 
 Lemma check_ops_scalar : forall c ops x obs known x' r k', forallb op_scalar ops = true -> scalar_inv x ->
